@@ -9,13 +9,13 @@ UNITS_LOCAL = {"C19": [
          repo_src=["rkcommon/utility/TimeStamp.cpp"],
          flags=ASAN, env=_ENV, opt="-O1", engine="seqmc",
          budget={"quick": 100, "thorough": 1000},
-         rule=("obs: every history of 7 (thorough 8) enabled operations over 2 heap observables (both alive at the start) and 3 heap observer slots, alphabet of 18: create observer i on observable k, "
+         rule=("obs: every history of 1..7 (thorough 1..8) enabled operations, shortest first, over 2 heap observables (both alive at the start) and 3 heap observer slots, alphabet of 18: create observer i on observable k, "
                "notifyObservers k, wasNotified i, destroy observer i, destroy observable k, create a new observable in slot k; reference model = one pending flag per observer (set by its observable's notify, "
                "cleared by its own poll, false for ever once its observable is destroyed); every poll result is compared; teardown of every history destroys the remaining observables first, polls every "
                "remaining observer once more (must be false) and destroys it (observers-first order is part of the alphabet). "
-               "ts: every history of 6 (thorough 7) enabled operations over 3 heap TimeStamp slots on one thread, alphabet of 39: construct, renew, copy-/move-construct i from j, copy-/move-assign i=j (incl. i=i), destroy; "
+               "ts: every history of 1..6 (thorough 1..7) enabled operations over 3 heap TimeStamp slots on one thread, alphabet of 39: construct, renew, copy-/move-construct i from j, copy-/move-assign i=j (incl. i=i), destroy; "
                "each constructed/renewed value must exceed every value obtained earlier in the history, a copy/move target must read its source's value, all other live stamps must be unchanged. "
-               "Every history is replayed on fresh objects inside a forked ASan+UBSan shard (every shorter history is a checked prefix). "
+               "Every history is replayed on fresh objects inside a forked ASan+UBSan shard. "
                "Two histories are distinct when their operation sequences differ; distinct outcomes = distinct (operation, result, resulting model state) resp. (operation, order pattern of the live stamps)."),
          assumptions=["copying an Observer/Observable is outside the statement and not in the alphabet",
                       "a moved-from TimeStamp may read any value (re-read after the move); it stays usable as a copy source",
